@@ -17,6 +17,27 @@ from mc import common
 from mc import gen_protos as gp
 
 
+def round_trip_via_file(p):
+    """ModelProto -> file -> ir.load -> ir.save -> file -> ModelProto (no data file is needed: external tensors are
+    only read on access)."""
+    import os
+    import shutil
+
+    d = common.scratch_dir("c02file")
+    try:
+        src, dst = os.path.join(d, "in.onnx"), os.path.join(d, "out.onnx")
+        with open(src, "wb") as f:
+            f.write(p.SerializeToString())
+        model = ir.load(src)
+        ir.save(model, dst)
+        q = onnx.ModelProto()
+        with open(dst, "rb") as f:
+            q.ParseFromString(f.read())
+        return q
+    finally:
+        shutil.rmtree(d, ignore_errors=True)
+
+
 def round_trip(p):
     if isinstance(p, onnx.TensorProto):
         return serde.serialize_tensor(serde.deserialize_tensor(p))
@@ -49,6 +70,16 @@ def check(p):
             out.append(("second_round_trip_not_a_fixpoint", d2[:6]))
     except Exception as e:  # noqa: BLE001
         out.append(("second_round_trip_raises", f"{type(e).__name__}: {e}"[:200]))
+    if isinstance(p, onnx.ModelProto):
+        # the same through the file entry points
+        try:
+            qf = round_trip_via_file(p)
+            df = gp.proto_diff(a, gp.normalise(qf))
+            if df and not d:
+                out.append(("not_lossless_through_load_and_save", df[:6]))
+        except Exception as e:  # noqa: BLE001
+            if not any(c == "round_trip_raises" for c, _ in out):
+                out.append(("load_or_save_raises", f"{type(e).__name__}: {e}"[:200]))
     textual = p.SerializeToString(deterministic=True) != q.SerializeToString(deterministic=True)
     return out, textual and not d
 
